@@ -244,11 +244,38 @@ def run(ctx):
         mp = A.param_names(fn)[1]
         ok = any(A.norm(c.func) == "self._SOCKET_HUB.send" and [A.norm(a) for a in c.args] == ["self", mp] for c in A.calls_in(fn))
         ctx.check("C18.K", f"ThreadSocket.{meth}:passes-own-socket-and-message", ok, f"ThreadSocket.{meth} does not call hub.send(self, {mp})", ts.loc(fn), trivial=True)
+    # a queued message outlives its sender's connection: the receive wrappers reach the hub whatever the peer's state is
+    n_recv = 0
+    for meth, fn in sorted(ts.methods.items()):
+        hub_recv = [c for c in A.calls_in(fn) if A.norm(c.func) == "self._SOCKET_HUB.recv"]
+        if not hub_recv:
+            continue
+        n_recv += 1
+        ctx.fn(f"ThreadSocket.{meth}")
+        blockers = []
+        for c in hub_recv:
+            for st in G.dominating_stmts(fn, c):
+                cond = G.raising_condition(st)
+                if cond is not None and any(isinstance(x, ast.Attribute) and isinstance(x.value, ast.Name) and x.value.id == "self" for x in ast.walk(cond)):
+                    blockers.append(src(cond))
+            for t, pol in G.enclosing_tests(fn, c):
+                if any(isinstance(x, ast.Attribute) and isinstance(x.value, ast.Name) and x.value.id == "self" for x in ast.walk(t)):
+                    blockers.append(("" if pol else "not ") + src(t))
+        ctx.check("C18.W", f"ThreadSocket.{meth}:reaches-the-hub-whatever-the-connection-state", not blockers,
+                  f"ThreadSocket.{meth} only asks the hub for a message when `{'; '.join(blockers)}` allows it: a message that was sent before the sender disconnected "
+                  "(it is still in the hub's queue) is then never received", ts.loc(fn), sample={"wrapper": meth})
+    ctx.anchor("C18.W", "receive wrappers around hub.recv", n_recv, 3)
+    # 0 is an ordinary id / value / address: nothing int-valued may be tested by truthiness (nqsa/truth.py)
+    from .. import truth
+    truth.check(ctx, "C18.Z", ['netqasm.sdk.classical_communication.thread_socket.socket_hub', 'netqasm.sdk.classical_communication.thread_socket.socket'])
 
 
 H = "netqasm/sdk/classical_communication/thread_socket/socket_hub.py"
 S = "netqasm/sdk/classical_communication/thread_socket/socket.py"
 SEEDS = [
+    dict(id="c18-recv-refuses-when-peer-gone", file=S, expect="C18.W", construct="ThreadSocket.recv_structured:",
+         old="        # TODO use maxsize?\n        msg = self._SOCKET_HUB.recv(self, block=block, timeout=timeout)\n        # if not isinstance(msg, StructuredMessage):",
+         new="        if not self.connected:\n            raise ConnectionError(\"not connected\")\n        msg = self._SOCKET_HUB.recv(self, block=block, timeout=timeout)\n        # if not isinstance(msg, StructuredMessage):"),
     dict(id="c18-pop-last", file=H, expect="C18.Q", construct="recv", old="                    msg = messages.pop(0)", new="                    msg = messages.pop()"),
     dict(id="c18-insert-front", file=H, expect="C18.Q", construct="send", old="                self._messages[socket.remote_key].append(msg)", new="                self._messages[socket.remote_key].insert(0, msg)"),
     dict(id="c18-queue-own-key", file=H, expect="C18.Q", construct="send", old="                self._messages[socket.remote_key].append(msg)", new="                self._messages[socket.key].append(msg)"),
